@@ -166,9 +166,49 @@ func Gen(t *rapid.T, o GenOpts) Prog {
 		}
 		return ops
 	}
+	// lock-split script: one correct operator alone reaches a prepare quorum in round r; after the timeouts its
+	// round-change is withheld, the Byzantine operators supply (unprepared) round-changes instead, the next leader
+	// proposes its own value and, with Byzantine prepares, another correct operator alone prepares that value in
+	// round r+1: two correct operators now hold locks on different values in different rounds.
+	lockSplit := func(t *rapid.T) []Op {
+		a := rapid.IntRange(1, n).Draw(t, "ls_a")
+		b := rapid.IntRange(1, n).Draw(t, "ls_b")
+		bitA, bitB := uint32(1)<<uint(a-1), uint32(1)<<uint(b-1)
+		all := uint32(1<<uint(n)) - 1
+		var ops []Op
+		fg := func(tp, v string, by int, rel int) Op {
+			return Op{K: "forge", Forge: &Forge{By: by, ByLeader: tp == "proposal", T: tp, RoundRel: rel, Value: v, Just: "auto", Prepared: "none"}}
+		}
+		ops = append(ops, Op{K: "flush", Types: "P"})
+		for i := 0; i < nb; i++ {
+			ops = append(ops, fg("prepare", "last", i, 0))
+		}
+		ops = append(ops, Op{K: "flush", Types: "p", To: bitA}) // only A sees the prepare quorum
+		ops = append(ops, Op{K: "timeout"})
+		for i := 0; i < nb; i++ {
+			ops = append(ops, fg("rc", "", i, 0))
+		}
+		ops = append(ops, fg("proposal", rapid.SampledFrom([]string{"B", "C", "auto"}).Draw(t, "ls_v"), 0, 0)) // in case the next leader is Byzantine
+		ops = append(ops, Op{K: "flush", Types: "R", From: all &^ bitA})                                       // A's prepared round-change is withheld
+		ops = append(ops, Op{K: "flush", Types: "P", To: all &^ bitA})
+		for i := 0; i < nb; i++ {
+			ops = append(ops, fg("prepare", "last", i, 0))
+		}
+		ops = append(ops, Op{K: "flush", Types: "p", From: all &^ bitA, To: bitB}) // only B prepares the new value
+		if rapid.Bool().Draw(t, "ls_timeout") {
+			ops = append(ops, Op{K: "timeout"})
+		}
+		return ops
+	}
 	max := o.MaxOps
 	if max == 0 {
 		max = 40
+	}
+	if nb > 0 && rapid.IntRange(0, 4).Draw(t, "locksplit") == 0 {
+		if rapid.Bool().Draw(t, "ls_pre") {
+			p.Ops = append(p.Ops, script(t)...)
+		}
+		p.Ops = append(p.Ops, lockSplit(t)...)
 	}
 	if nb > 0 && rapid.IntRange(0, 2).Draw(t, "equiv_first") == 0 {
 		p.Ops = append(p.Ops, equiv(t)...)
